@@ -22,6 +22,7 @@ CONSTANTS
   MaxRebootAsks = 2
   MaxCrashes = 0
   RestartRuns <- MCRestartNone
+  FailSets <- MCFailNone
   Mut = "none"
 INVARIANT NoViolation
 VIEW View
